@@ -284,7 +284,8 @@ def configurations(tier: str) -> List[Tuple[str, dict]]:
         for d1 in DIRS:
             cfg(f"offerer {kind} {d1}; answerer owns nothing", offer=[("tx", kind, d1)])
             for d2 in DIRS:
-                cfg(f"offerer {kind} {d1}; answerer owns {kind} {d2}", offer=[("tx", kind, d1)], answer=[("tx", kind, d2)])
+                if tier == "thorough" or kind == "audio" or d2 in (d1, "sendrecv"):
+                    cfg(f"offerer {kind} {d1}; answerer owns {kind} {d2}", offer=[("tx", kind, d1)], answer=[("tx", kind, d2)])
     # addTrack on either side
     for kind in ("audio", "video"):
         cfg(f"offerer addTrack({kind}); answerer addTrack({kind})", offer=[("track", kind, "sendrecv")], answer=[("track", kind, "sendrecv")])
@@ -682,3 +683,95 @@ def c14_sim(rep: Report, prog: Program, tier: str) -> None:
                 continue        # the same misbehaviour after a different prefix
             seen.add(c)
             rep.fail(mk_finding(prog, "C14", RULE, anchor, None, f"[{label}] {detail}", construct=c))
+
+
+# ---------------------------------------------------------------------------------------------------------------- C19-SIM
+def c19_sim(rep: Report, prog: Program, tier: str) -> None:
+    """close() at every point between negotiation calls, on either side: everything the connection created is stopped, the three states are `closed`, nothing happens
+    on a second close(), negotiation calls are refused afterwards."""
+    RULE = "C19-SIM"
+    rep.rule(RULE, "close() between any two negotiation calls (interpreted, stand-in transports): every transport / sender / receiver the connection created is stopped, states are closed, "
+                   "a second close() does nothing", min_instances=30)
+    anchor = prog.func(PC + ".close")
+    steps = ("created", "createOffer", "setLocal(offer)", "setRemote(offer)", "createAnswer", "setLocal(answer)", "setRemote(answer)")
+    cfgs = [("audio+video+data, balanced", [("tx", "audio", "sendrecv"), ("tx", "video", "sendrecv")], True, "balanced", []),
+            ("audio+video+data, max-compat", [("tx", "audio", "sendrecv"), ("tx", "video", "sendonly")], True, "max-compat", []),
+            ("video+data, max-bundle; answerer owns audio and video", [("track", "video", "sendrecv")], True, "max-bundle", [("track", "audio", "sendrecv"), ("track", "video", "sendrecv")]),
+            ("data only", [], True, "balanced", []),
+            ("audio only; answerer owns a data channel", [("tx", "audio", "recvonly")], False, "balanced", "data")]
+
+    def one(item: Tuple[str, int, str]) -> Tuple[str, str, str]:
+        ci, upto, who = item
+        label_c, offer_media, data, policy, ans_media = cfgs[ci]
+        label = f"{label_c}: {who}.close() after {steps[upto]}"
+        sim = PCSim(prog)
+        try:
+            a, b = Side(sim, policy), Side(sim, policy)
+            for how, kind, d in offer_media:
+                a.add(how, kind, d)
+            if data:
+                sim.call(a.pc, "createDataChannel", "chat")
+            if ans_media == "data":
+                sim.call(b.pc, "createDataChannel", "mine")
+            else:
+                for how, kind, d in ans_media:
+                    b.add(how, kind, d)
+            offer = answer = None
+            for k in range(1, upto + 1):
+                if k == 1:
+                    offer = sim.call(a.pc, "createOffer")
+                elif k == 2:
+                    sim.call(a.pc, "setLocalDescription", offer)
+                elif k == 3:
+                    sim.call(b.pc, "setRemoteDescription", sim.desc("offer", offer.sdp))
+                elif k == 4:
+                    answer = sim.call(b.pc, "createAnswer")
+                elif k == 5:
+                    sim.call(b.pc, "setLocalDescription", answer)
+                elif k == 6:
+                    sim.call(a.pc, "setRemoteDescription", sim.desc("answer", answer.sdp))
+            side = a if who == "offerer" else b
+            mine = [st for owner, st in sim.created if owner is side.pc]
+            sim.call(side.pc, "close")
+            problems = []
+            for st in mine:
+                if st.stub_kind in ("ice", "dtls", "sctp", "sender", "receiver") and not any(e[0] == "stop" for e in st.log):
+                    problems.append(f"{st.stub_kind} {st.name} was created by the connection and is not stopped by close()")
+            for prop_ in ("signalingState", "iceConnectionState", "connectionState"):
+                v = sim.get(side.pc, prop_)
+                if v != "closed":
+                    problems.append(f"{prop_} is {v!r} after close()")
+            logs = {id(st): len(st.log) for st in mine}
+            events = len(getattr(side.pc, "events", []))
+            sim.call(side.pc, "close")
+            if any(len(st.log) != logs[id(st)] for st in mine) or len(getattr(side.pc, "events", [])) != events:
+                problems.append("a second close() stops objects again or emits events")
+            for meth, args in (("createOffer", []), ("createAnswer", []), ("setRemoteDescription", [sim.desc("offer", offer.sdp)] if offer is not None else None)):
+                if args is None:
+                    continue
+                try:
+                    sim.call(side.pc, meth, *args)
+                    problems.append(f"{meth}() is accepted after close()")
+                except Raised as ex:
+                    if ex.name != "InvalidStateError":
+                        problems.append(f"{meth}() after close() raises {ex.name}")
+            return ("fail", label, "; ".join(problems[:3])) if problems else ("ok", label, f"{len(mine)} objects")
+        except Raised as ex:
+            return ("fail", label, f"raises {ex.name} (line {getattr(getattr(ex, 'node', None), 'lineno', None)})")
+        except Unknown as ex:
+            return ("unknown", label, str(ex))
+    items = [(ci, upto, who) for ci in range(len(cfgs)) for upto in range(len(steps)) for who in ("offerer", "answerer")]
+    if tier == "quick":
+        items = [it for it in items if it[0] in (0, 2, 4) or it[1] in (0, 6)]
+    seen = set()
+    for kind, label, detail in pmap(one, items):
+        if kind == "unknown":
+            raise AnalysisError(f"{RULE} cannot evaluate [{label}]: {detail}")
+        if kind == "ok":
+            rep.ok(RULE, label, sample=detail)
+        else:
+            c = "close: " + re.sub(r"[\w-]+-\d+", "X", re.sub(r"\d+", "N", detail))[:90]
+            if c in seen:
+                continue
+            seen.add(c)
+            rep.fail(mk_finding(prog, "C19", RULE, anchor, None, f"[{label}] {detail}", construct=c))
